@@ -182,4 +182,7 @@ pub fn run(ctx: &mut Ctx) {
     // conversions from raw integers handed over by data formats: an out-of-range number is an error, never a
     // wrapped or clamped value
     crate::c15::decode_integers(ctx, "C02", true);
+    // hidden state: every ordered pair of operation calls on a fresh thread against the lone call (no model involved)
+    let hist_calls = crate::histpairs::calls_ops(!ctx.thorough(), &|_| true);
+    crate::histpairs::pairwise(ctx, "C02", "all_operations", hist_calls);
 }
